@@ -9,10 +9,10 @@ CLAIMED = {
          "Held on every explored scenario: 2..7 tasks from ten documented usage patterns (independent typed writers sharing package-level Codec values; reflection-path writers of a struct type new to the process; N goroutines on one freshly opened File reading rows, row-group rows, pages, lazily loaded column/offset indexes and bloom filters, ReadAt; one goroutine per ColumnWriter; BeginRowGroup row groups filled concurrently and committed in order; a fresh Schema shared for Deconstruct/Reconstruct/Comparator/Lookup; shared Encoding and Codec values; independent sorted buffers; a shared Conversion; async-mode readers with seeks) run concurrently before and after a serial run: every digest (file bytes, rows, index contents, filter answers) equals the serial one, all callers observe one published index/filter value, no panic, no pool buffer handed out twice, no race report (race build), no deadlock. Interleavings are sampled, not enumerated: exploration.",
          "Map-typed columns excluded. The race detector only sees the interleavings that occurred; yield injection is limited to 4 hook points (buffer release, lazy publication, async hand-off). The deadlock verdict requires every goroutine blocked and no CPU consumed; anything else slow is inconclusive.",
          "DESIGN.md §4 C15"),
- "C19": ("exploration", "runtime monitoring: structural-equality oracle between generated variant trees and (a) an independent decoder of the Variant binary encoding, (b) the library's decoder, (c) three read paths of shredded files incl. an independent reassembly of the stored (value, typed_value) columns by the shredding specification's rules",
-         "Held on every explored case: variant trees over all 21 primitive kinds at boundary values, strings around the 63-byte short-string limit, objects with > 255 keys (2-byte field ids), arrays up to 3000 elements and wide arrays nested in wide arrays, depth <= 4: Encode output decodes to an equal tree with an independent decoder written from the encoding specification and with variant.Decode; Unmarshal(Marshal(g)) equals g. Shredding schemas from the same pools (all shredded leaf types, LIST and object groups nested to depth 2; values exact, partial and mismatching) x placement of the variant column (top level, under a repeated field, inside a group) x writer path (GenericWriter.Write, GenericBuffer.Write+WriteRowGroup, Deconstruct+WriteRows) x value form (encoded bytes, Go values): rows read converted to unshredded form, read through the shredded schema, and reassembled from the raw columns by an independent implementation of the shredding rules all equal the written values. Sampling: exploration.",
-         "Structural equality: same primitive type, object field order irrelevant, short and long strings equal, floats bitwise except that signalling and quiet float32 NaN are one value. Values handed over or read back as Go values are compared modulo the documented lossy Go mapping (Value.GoValue / ValueOf). Optional variant columns and reading through a different shredding schema are not exercised.",
-         "DESIGN.md §4 C19"),
+ "C19": ("exploration", "runtime monitoring: structural-equality oracle between generated variant trees and (a) an independent decoder of the Variant binary encoding applied to the output of variant.Encode and of the streaming variant.Builder, (b) the library's decoder, (c) four read paths of shredded files incl. an independent reassembly of the stored (value, typed_value) columns by the shredding specification's rules and a reconstruction through the columnar cursor API",
+         "Held on every explored case: variant trees over all 21 primitive kinds at boundary values, strings around the 63-byte short-string limit, objects with > 255 keys (2-byte field ids), arrays up to 3000 elements and wide arrays nested in wide arrays, depth <= 4: the bytes of variant.Encode and of variant.Builder decode to an equal tree with an independent decoder written from the encoding specification, and with variant.Decode; Unmarshal(Marshal(g)) equals g. Shredding schemas from the same pools (all shredded leaf types, LIST and object groups nested to depth 2; values exact, partial and mismatching) x placement of the variant column (top level, optional incl. null groups, under a repeated field, inside a group) x writer path (GenericWriter.Write, GenericBuffer.Write+WriteRowGroup, Deconstruct+WriteRows, VariantColumnWriter.WriteValue, VariantColumnWriter fed with events) x value form (encoded bytes, Go values): rows read converted to unshredded form, read through the shredded schema, reassembled from the raw columns by an independent implementation of the shredding rules, and rebuilt from NewVariantReader cursors (location tags, typed vectors, residuals, list offsets) all equal the written values. Sampling: exploration.",
+         "Structural equality: same primitive type, object field order irrelevant, short and long strings equal, floats bitwise except that signalling and quiet float32 NaN are one value. Values handed over or read back as Go values are compared modulo the documented lossy Go mapping (Value.GoValue / ValueOf); a Go nil stands for both the null group and the variant null. Reading through a different shredding schema than the file's is not exercised; the cursor reader and the column writer are exercised on non-repeated placements only.",
+         "DESIGN.md §4 C19, §11"),
  "C18": ("exploration", "runtime monitoring + fault injection: round-trip oracle, raw-byte marker scan for plaintext leaks, and error-or-clean-rows oracle over tampered module envelopes located by an independent length-prefix walk",
          "Held on every explored case: both footer modes x footer-key-only / per-column keys x v1/v2 x codecs x bloom filters x 1..n row groups x fresh or Reset-reused writers: (a) rows read with the right keys equal the rows written, a reader lacking a column key gets an error; (b) none of the unique 16-byte markers (nor the PLAIN int64 encodings) of encrypted columns or their statistics occurs in the raw file; (c) byte flips in nonce / ciphertext / tag / length prefix of PRNG modules, truncations, swaps of equal-length modules, transplants of the same module position from a second file (separate config, one shared *EncryptionConfig, same writer after Reset) and a wrong footer key all make the read fail (never different rows). Tamper points are sampled: exploration.",
          "Module boundaries come from a 4-byte length-prefix walk from offset 4 to the footer. Column names in a plaintext footer may be visible.",
